@@ -120,6 +120,17 @@ def run(ctx):
         H = rng.choice([1, 2, 3, 5, 10, 30] if not q else [1, 2, 3, 5, 10])
         specs.append({"id": "r%d" % i, "hb": H, "scale": 4, "phase": rng.choice([0, 1, 2, 3]),
                       "revs": PRE + random_script(rng, H, (4 * H + 4) * 4 + rng.randint(0, 8 * H))})
+    # fault histories: the transport fails (drain raises) while the watchdog itself is writing its TestRequest, the connection is
+    # lost and the same object gets a second connection; the watchdog must guard that one like the first
+    for H in ((1, 2, 3) if q else (1, 2, 3, 5, 10)):
+        for ph in (0, 1, 2, 3):
+            for k in (0, 2, 5):
+                quiet = [{"t": "adv"}] * (4 * (H - 1) + k)
+                window = [{"t": "adv", "faildrain": True}] * 8
+                second = [{"t": "eof"}, {"t": "attach"}, RF("LOGON", 0)] + [{"t": "adv"}] * (4 * (3 * H + 2))
+                specs.append({"id": "f%d.%d.%d" % (H, ph, k), "hb": H, "scale": 4, "phase": ph, "revs": PRE + quiet + window + second})
+                specs.append({"id": "f%d.%d.%da" % (H, ph, k), "hb": H, "scale": 4, "phase": ph,
+                              "revs": PRE + quiet + window + second[:3] + [{"t": "adv"}] * (4 * H + 2) + [RF("HB", 0, "match")] + [{"t": "adv"}] * (4 * 2 * H)})
     ctx.log("executing %d schedules on the real heartbeat task (%d from the model, %d random incl. larger intervals)" % (len(specs), nmodel, nr))
     recs = pmap(session.run_trace, specs)
     ctx.log("evaluating %d steps with TLC (HeartbeatEval)" % sum(len(r["steps"]) for r in recs))
